@@ -64,8 +64,10 @@ def fnv_array(a):
     return h
 
 
-def step_arrays(step, widx, spec):
-    return [{"name": "SEQNUM", "type": "INTE", "data": [step]}] + payload(step, widx, spec)
+def step_arrays(step, widx, spec, bare=False):
+    """bare: the stream for the report step is opened and closed without any array (only SEQNUM reaches the file) -
+    what a run leaves that stops right after starting a step"""
+    return [{"name": "SEQNUM", "type": "INTE", "data": [step]}] + ([] if bare else payload(step, widx, spec))
 
 
 @st.composite
@@ -89,7 +91,10 @@ def history_strategy(draw, big):
             else:
                 n = draw(st.sampled_from([0, 1, 999, 1000, 1001, 2001]) | st.integers(0, 2600 if big else 1200))
             spec.append([t, n])
-        writes.append({"step": s, "spec": spec})
+        w_ = {"step": s, "spec": spec}
+        if draw(st.integers(0, 7)) == 0:
+            w_ = {"step": s, "spec": [], "bare": True}
+        writes.append(w_)
     return {"formatted": formatted, "writes": writes, "trunc": draw(st.integers(0, 3)) == 0 and not formatted}
 
 
@@ -98,7 +103,8 @@ class C08(Check):
     PROBE_GROUP = "eclio"
     LEVEL = "fault_enumeration"
     RULE = ("Histories of report-step writes through OutputStream::Restart{unified} (each write = new stream object, "
-            "SEQNUM + 3 headers + 0..3 payload arrays whose contents encode (step, write index)); enumerated: every "
+            "SEQNUM + 3 headers + 0..3 payload arrays whose contents encode (step, write index), or - one write in eight - nothing "
+            "but SEQNUM: a step that was started and not filled); enumerated: every "
             "history of length <= 4 (quick) / <= 5 (thorough) over steps 0..4 x {formatted, unformatted}; random: "
             "length <= 14/30, steps 0..40, 40 % rewinds, payloads up to 3 blocks.  After EVERY write the file must be "
             "byte-identical to the reference encoding of the surviving steps (model: survivors = {t < s} + {s}) and "
@@ -139,6 +145,16 @@ class C08(Check):
                            "writes": [{"step": s, "spec": [["INTE", 3]] if (i + s) % 2 else [["CHAR", 2], ["DOUB", 1]]}
                                       for i, s in enumerate(seq)],
                            "trunc": (not formatted) and nth % every == 0}
+            # the same sequences with one write that puts nothing but SEQNUM into the file
+            for L in range(1, maxL):
+                for seq in itertools.product(range(5), repeat=L):
+                    for j in range(L):
+                        nth += 1
+                        yield {"formatted": formatted,
+                               "writes": [({"step": s, "spec": [], "bare": True} if i == j else
+                                           {"step": s, "spec": [["INTE", 3]] if (i + s) % 2 else [["CHAR", 2], ["DOUB", 1]]})
+                                          for i, s in enumerate(seq)],
+                               "trunc": (not formatted) and nth % every == 0}
 
     def classify(self, case):
         steps = [w["step"] for w in case["writes"]]
@@ -150,6 +166,12 @@ class C08(Check):
             surv = [t for t in surv if t < s] + [s]
         rew = any(steps[i] <= max(steps[:i]) for i in range(1, len(steps)))
         labels = ["fmt" if case["formatted"] else "unfmt", "rewind" if rew else "append-only"]
+        if any(w.get("bare") for w in case["writes"]):
+            labels.append("bare-step")
+            for i in range(1, len(steps)):
+                if case["writes"][i - 1].get("bare") and steps[i] <= steps[i - 1]:
+                    labels.append("rewrite-of-bare-last-step")
+                    break
         if case.get("trunc"):
             labels.append("truncation-scan")
         if any(n > 1000 for w in case["writes"] for t, n in w["spec"] if t != "CHAR"):
@@ -157,11 +179,11 @@ class C08(Check):
         nontriv = inside and len(surv) >= 3
         if nontriv:
             labels.append("nontrivial")
-        return nontriv, sha([case["formatted"], steps, [w["spec"] for w in case["writes"]]], 16), labels
+        return nontriv, sha([case["formatted"], steps, [w["spec"] for w in case["writes"]], [bool(w.get("bare")) for w in case["writes"]]], 16), labels
 
     def sample_view(self, case):
         return {"formatted": case["formatted"], "steps": [w["step"] for w in case["writes"]],
-                "payload_shapes": [w["spec"] for w in case["writes"]][:6], "trunc": case.get("trunc")}
+                "payload_shapes": [("bare" if w.get("bare") else w["spec"]) for w in case["writes"]][:6], "trunc": case.get("trunc")}
 
     def check(self, case, ctx):
         P = ctx.P
@@ -180,7 +202,7 @@ class C08(Check):
         for widx, w in enumerate(case["writes"]):
             s = w["step"]
             spec = [tuple(x) for x in w["spec"]]
-            arrs = step_arrays(s, widx, spec)
+            arrs = step_arrays(s, widx, spec, bool(w.get("bare")))
             P.call("rst_write", dir=d, base=base, formatted=fmt, unified=True, seqnum=s,
                    arrays=to_wire(arrs[1:]))
             enc = EC.encode_formatted(arrs) if fmt else EC.encode_unformatted(arrs)
